@@ -35,6 +35,9 @@ func init() {
 							continue
 						}
 						add(op, k, form, 0)
+						if op >= 11 && op <= 16 {
+							r = append(r, Oblig{Harness: "vh_C02_int", BVMode: form < 3, Globals: map[string]int{"vhOp": op, "vhKind": k, "vhForm": form, "vhCntInt": 0, "vhBranch": 1}})
+						}
 					}
 				}
 				for op := 100; op <= 110; op++ { // compound assignment: var op= var, var op= const
@@ -48,8 +51,8 @@ func init() {
 			}
 			return r
 		},
-		Bounds:      []string{"all 11 integer kinds", "operand values: every 64-bit pattern, truncated to the operand kind by the frame slot", "operand forms: variable/variable, typed constant left/right, untyped constant left/right", "result contexts: plain destination slot, compound assignment, comparison result", "shift counts: every uint value, and every int value (negative included)"},
+		Bounds:      []string{"all 11 integer kinds", "operand values: every 64-bit pattern, truncated to the operand kind by the frame slot", "operand forms: variable/variable, typed constant left/right, untyped constant left/right", "result contexts: plain destination slot, compound assignment, comparison result, comparison as branch condition", "shift counts: every uint value, and every int value (negative included)"},
 		Assumptions: []string{"both operands have the node's type (type checker's contract); a shift count is uint or int", "frame slots are addressable reflect.Values of the operand kind (engine reflect model, validated on vectors)", "Go's operator semantics = the engine's encoding of the SSA BinOp/UnOp at the operand type (validated natively on vectors in both integer encodings)"},
-		Outside:     []string{"floats, complex, strings (next)", "interface-typed destinations", "branch-form comparisons (fnext)", "map-entry operands of compound assignment", "conversions (delegated to reflect.Value.Convert)", "type rules of typecheck.go"},
+		Outside:     []string{"floats, complex, strings (next)", "interface-typed destinations", "map-entry operands of compound assignment", "conversions (delegated to reflect.Value.Convert)", "type rules of typecheck.go"},
 	}
 }
